@@ -170,6 +170,25 @@ pub fn c15_value(ctx: &mut Ctx, v: &MapVal) {
     ("from_slice", guarded(|| SourceMap::from_slice(json_text.as_bytes()).map_err(|e| e.to_string()))),
     ("from_reader", guarded(|| SourceMap::from_reader(json_text.as_bytes()).map_err(|e| e.to_string()))),
   ];
+  // environment answers of a reader: a read may return fewer bytes than asked for (pipes, sockets);
+  // every read boundary then falls somewhere else in the document, also inside multi-byte characters
+  struct ShortReader<'a> {
+    data: &'a [u8],
+    per: usize,
+  }
+  impl std::io::Read for ShortReader<'_> {
+    fn read(&mut self, buf: &mut [u8]) -> std::io::Result<usize> {
+      let n = buf.len().min(self.per).min(self.data.len());
+      buf[..n].copy_from_slice(&self.data[..n]);
+      self.data = &self.data[n..];
+      Ok(n)
+    }
+  }
+  let mut readers: Vec<(&str, Result<Result<SourceMap, String>, String>)> = readers.into_iter().collect();
+  for (name, per) in [("from_reader(1 byte per read)", 1usize), ("from_reader(3 bytes per read)", 3), ("from_reader(7 bytes per read)", 7)] {
+    readers.push((name, guarded(|| SourceMap::from_reader(ShortReader { data: json_text.as_bytes(), per }).map_err(|e| e.to_string()))));
+    ctx.transitions += 1;
+  }
   for (name, r) in readers {
     match r {
       Err(p) => fail(ctx, "reader_panic", format!("{name}: {p}")),
@@ -288,6 +307,41 @@ pub fn c15_worker(tier: &str, k: usize, n: usize, ctx: &mut Ctx) {
         ctx.states += 1;
         ctx.count("empty_table_values");
         c15_value(ctx, &v);
+      }
+    }
+  }
+  // long documents: a multi-byte character placed across every offset that is a multiple of a
+  // buffer size a reader may use (512 .. 64 KiB), at each of its interior byte positions
+  {
+    for c in ["é", "€", "\u{2028}", "😀"] {
+      for boundary in [512usize, 1024, 4096, 8192, 16384, 32768, 65536, 2 * 65536] {
+        for split in 1..c.len() {
+          for field in [4usize, 5, 0] {
+            if !st.mine() {
+              continue;
+            }
+            // find the padding that puts byte `split` of the character at `boundary`
+            let probe = |pad: usize| {
+              let mut v = base_val();
+              set_field(&mut v, field, &format!("{}{c}tail", "x".repeat(pad)));
+              v
+            };
+            let j0 = probe(0).build().to_json().unwrap_or_default();
+            let Some(at0) = j0.find(c) else { continue };
+            if at0 + split > boundary {
+              continue;
+            }
+            let v = probe(boundary - at0 - split);
+            let j = v.build().to_json().unwrap_or_default();
+            if j.find(c).map(|p| p + split) != Some(boundary) {
+              ctx.notes.push(format!("MACHINERY: long document alignment failed for {c:?} {boundary} {split}"));
+              continue;
+            }
+            ctx.states += 1;
+            ctx.count("long_document_values");
+            c15_value(ctx, &v);
+          }
+        }
       }
     }
   }
